@@ -14,6 +14,6 @@ fi
 tail -5 /tmp/_fix_test.log
 git add -u
 # strip lines referring to /verif from the commit message
-echo "$MSG" | grep -v -i "/verif\|After applying\|Arc\.\|move the finding" | git commit -q -F -
+echo "$MSG" | grep -v -i "/verif\|After applying\|Arc\.\|move the finding\|^Coq:\|_refuted" | git commit -q -F -
 git log --oneline | head -1
 rm -f /tmp/_fix.diff /tmp/_fix_test.log
